@@ -41,6 +41,11 @@ Fixpoint l_nodup (l : list (list Z)) : bool :=
   match l with [] => true | x :: r => negb (existsb (zl_eqb x) r) && l_nodup r end.
 
 (* ---------- decoding ---------- *)
+(* how the collection was collected: 0 collect_seq | 1 collect_par(Some t, Some n) |
+   2 collect_par(None, None) | 3 collect() | 4 collect_par(Some t, None) | 5 collect_par(None, Some n);
+   0 and 3 are the sequential engine (helpers/common.rs: collect = collect_seq) *)
+Definition ex_ok (ex : Z) : bool := (0 <=? ex) && (ex <=? 5).
+Definition ex_seq (ex : Z) : bool := (ex =? 0) || (ex =? 3).
 Definition mode_of (z : Z) : option mode :=
   if z =? 0 then Some SkipInvalid else if z =? 1 then Some LogAndContinue
   else if z =? 2 then Some FailFast else None.
@@ -486,7 +491,7 @@ Definition dec_mstep (keyed : bool) (j : J) : option mstep :=
   | JL [JI md; jhc; JI ex; JI _; jrows] =>
       match mode_of md, jbit jhc, dec_rows keyed jrows with
       | Some m, Some hc, Some rows =>
-          if (ex =? 0) || (ex =? 1) then Some (MRun m hc (ex =? 0) rows) else None
+          if ex_ok ex then Some (MRun m hc (ex_seq ex) rows) else None
       | _, _, _ => None
       end
   | _ => None
@@ -873,10 +878,10 @@ Fixpoint judge_tree (st : tstate) (rows : list (list Z)) (prev : list (list Z))
         end
       else None
   | JL [JI t; JI h; JI ex; JI _] :: script' =>
-      if (t =? 1) && (0 <=? h) && ((ex =? 0) || (ex =? 1)) then
+      if (t =? 1) && (0 <=? h) && (ex_ok ex) then
         match os with
         | o :: os' =>
-            match judge_collect st rows prev (Z.to_nat h) (ex =? 0) o with
+            match judge_collect st rows prev (Z.to_nat h) (ex_seq ex) o with
             | Some (a, p, cur) =>
                 match judge_tree st rows cur script' os' with
                 | Some (a', p') => Some (a && a', p && p')
@@ -893,6 +898,30 @@ Fixpoint judge_tree (st : tstate) (rows : list (list Z)) (prev : list (list Z))
 Definition tree_init : tstate :=
   let '(id, g) := tg_from_vec tg_empty in mk_tstate g [id] [] [[]].
 
+(* ---------- views: the collector read through every public view ----------
+   in = [keyed, exec, threads, partitions, rows]: one log-mode run with a collector;
+   out = [run observation (errors() / error_count()), to_json() parsed back, write_to_file() read
+   back, clone(), the count shown by Display].  Every view is judged like the run itself. *)
+Definition dec_view (j : J) : option (list (Z * Z * list Z) * Z) :=
+  match j with
+  | JL [je; JI c] => match dec_entries je with Some e => Some (e, c) | None => None end
+  | _ => None
+  end.
+Definition judge_views (keyed seq : bool) (rows : list (list Z)) (o : obs)
+           (views : list (list (Z * Z * list Z) * Z)) (shown : Z) : bool * bool :=
+  let '(a0, p0) := judge_run keyed LogAndContinue true seq rows o in
+  match o with
+  | OOk orows _ cnt =>
+      fold_left (fun (acc : bool * bool) (v : list (Z * Z * list Z) * Z) =>
+                   let '(a, p) := judge_run keyed LogAndContinue true seq rows
+                                            (OOk orows (fst v) (snd v)) in
+                   (fst acc && a, snd acc && p))
+                views
+                (a0 && (shown =? cnt),
+                 p0 && (shown =? Z.of_nat (List.length (ref_payloads rows))))
+  | _ => (false, false)
+  end.
+
 (* ---------- entry point ---------- *)
 Definition finish (r : option (bool * bool)) : verdict :=
   match r with Some (a, p) => ok_verdict a p | None => malformed end.
@@ -906,8 +935,8 @@ Definition check_C17 (kind : string) (input output : J) : verdict :=
         | Some keyed, Some m, Some hc =>
             match dec_rows keyed jrows, dec_obs keyed output with
             | Some rows, Some o =>
-                if (ex =? 0) || (ex =? 1) then
-                  let '(a, p) := judge_run keyed m hc (ex =? 0) rows o in ok_verdict a p
+                if ex_ok ex then
+                  let '(a, p) := judge_run keyed m hc (ex_seq ex) rows o in ok_verdict a p
                 else malformed
             | _, _ => malformed
             end
@@ -935,13 +964,13 @@ Definition check_C17 (kind : string) (input output : J) : verdict :=
     | JL [jk; JI md; jhc; JI ex; JI _; JI _; JI n; JI m; JI t; JI k] =>
         match jbit jk, mode_of md, jbit jhc, dec_bigobs output with
         | Some keyed, Some mo, Some hc, Some o =>
-            if ((ex =? 0) || (ex =? 1)) && (0 <=? n) && (1 <=? m) && (0 <=? t) && (1 <=? k)
+            if (ex_ok ex) && (0 <=? n) && (1 <=? m) && (0 <=? t) && (1 <=? k)
             then
               ok_verdict
-                (agree_big (ex =? 0)
+                (agree_big (ex_seq ex)
                            (nth 3 (snd (ref_big (Z.to_nat n) m t (Z.to_nat k) 0 0 0 0 0)) 0)
                            (model_big keyed mo hc (Z.to_nat n) m t (Z.to_nat k) 0) o)
-                (prop_big mo hc (ex =? 0) (Z.to_nat n) m t (Z.to_nat k) o)
+                (prop_big mo hc (ex_seq ex) (Z.to_nat n) m t (Z.to_nat k) o)
             else malformed
         | _, _, _, _ => malformed
         end
@@ -958,6 +987,22 @@ Definition check_C17 (kind : string) (input output : J) : verdict :=
                 finish (judge_tree (mk_tstate (ts_g tree_init) (ts_hs tree_init) [keyed]
                                               (ts_lins tree_init)) rows [] script os)
             | None => malformed
+            end
+        | None => malformed
+        end
+    | _, _ => malformed
+    end
+  else if String.eqb kind "views" then
+    match input, output with
+    | JL [jk; JI ex; JI _; JI _; jrows], JL [jo; v1; v2; v3; JI shown] =>
+        match jbit jk with
+        | Some keyed =>
+            match dec_rows keyed jrows, dec_obs keyed jo, omap dec_view [v1; v2; v3] with
+            | Some rows, Some o, Some views =>
+                if ex_ok ex then
+                  let '(a, p) := judge_views keyed (ex_seq ex) rows o views shown in ok_verdict a p
+                else malformed
+            | _, _, _ => malformed
             end
         | None => malformed
         end
@@ -981,8 +1026,8 @@ Definition check_C17 (kind : string) (input output : J) : verdict :=
     | JL [JI ex; JI _; JI _; jrows; JL jsteps] =>
         match dec_rows true jrows, omap dec_step jsteps, dec_obs true output with
         | Some rows, Some ss, Some o =>
-            if existsb is_validate_step ss && ((ex =? 0) || (ex =? 1)) then
-              ok_verdict (agree_with 1 (ex =? 0) None (model_pipe ss rows) o)
+            if existsb is_validate_step ss && (ex_ok ex) then
+              ok_verdict (agree_with 1 (ex_seq ex) None (model_pipe ss rows) o)
                          (prop_pipe ss rows o)
             else malformed   (* blocks without a validation step belong to C02/C03 *)
         | _, _, _ => malformed
